@@ -1903,7 +1903,9 @@ class rx:
     def __rfloordiv__(self, other):
         return self._apply_operator(operator.floordiv, other, reverse=True)
     def __rlshift__(self, other):
-        return self._apply_operator(operator.rlshift, other)
+        return self._apply_operator(operator.lshift, other, reverse=True)
+    def __rmatmul__(self, other):
+        return self._apply_operator(operator.matmul, other, reverse=True)
     def __rmod__(self, other):
         return self._apply_operator(operator.mod, other, reverse=True)
     def __rmul__(self, other):
@@ -1913,7 +1915,7 @@ class rx:
     def __rpow__(self, other):
         return self._apply_operator(operator.pow, other, reverse=True)
     def __rrshift__(self, other):
-        return self._apply_operator(operator.rrshift, other)
+        return self._apply_operator(operator.rshift, other, reverse=True)
     def __rsub__(self, other):
         return self._apply_operator(operator.sub, other, reverse=True)
     def __rtruediv__(self, other):
